@@ -887,10 +887,7 @@ class PresentationContextItemAC(PDUItem):
     @property
     def item_length(self) -> int:
         """Return the item's *Item Length* field value as :class:`int`."""
-        if self.transfer_syntax_sub_item:
-            return 4 + len(self.transfer_syntax_sub_item[0])
-
-        return 4
+        return 4 + sum(len(item) for item in self.transfer_syntax_sub_item)
 
     @property
     def result(self) -> int | None:
